@@ -593,14 +593,28 @@ func replicaSig(tree *vcompose.Node, prog program, res caseResult) string {
 }
 
 func TestConcurrentClients(t *testing.T) {
-	evid.Check(t, 1000, 4000, func(t *rapid.T) {
+	evid.Check(t, 1500, 4000, func(t *rapid.T) {
 		root := ""
 		if rapid.IntRange(0, 9).Draw(t, "forceRoot") < 7 {
-			root = rapid.SampledFrom([]string{"memory", "localdisk", "diskpacked", "blobpacked", "encrypt", "replica", "shard", "cond", "namespace", "proxycache", "overlay"}).Draw(t, "root")
+			root = rapid.SampledFrom([]string{"memory", "localdisk", "diskpacked", "blobpacked", "encrypt", "replica", "shard", "cond", "namespace", "proxycache", "overlay", "http"}).Draw(t, "root")
+			if v := os.Getenv("VERIF_C14_ROOT"); v != "" {
+				root = v
+			}
 		}
 		tree := vcompose.GenTree(t, 2, root)
 		for tree.Type == "union" {
 			tree = vcompose.GenTree(t, 2, "shard")
+		}
+		if tree.Type == "http" {
+			// behind the protocol the error texts and the partial effects by which the five open findings of
+			// this property are recognised (see knownSig) are not visible: the HTTP composition is only put in
+			// front of backends none of them concerns
+			for _, typ := range tree.Kids[0].Types() {
+				switch typ {
+				case "localdisk", "diskpacked", "proxycache", "replica", "cond", "overlay":
+					tree.Kids[0] = &vcompose.Node{Type: rapid.SampledFrom([]string{"verif", "memory"}).Draw(t, "httpKid")}
+				}
+			}
 		}
 		if tree.Type == "diskpacked" || rapid.Bool().Draw(t, "tinyPacks") {
 			forceTiny(tree)
